@@ -158,6 +158,9 @@ func c04Oracle(w *World, s *Setup) *Violation {
 					continue
 				}
 				co := mustParse(cv)
+				if mstr(co, "uid") != mstr(pre, "uid") {
+					continue // an earlier object of the same name: not the one that was written
+				}
 				if selectorMatches(sel, labelsOf(co)) {
 					matchSome = true
 					if metaRO(co)["deletionTimestamp"] == nil {
@@ -355,6 +358,7 @@ func C04Scenario() *Scenario {
 			return ops
 		}
 		pol := &Policy{Name: "adversarial", Shuffle: true, HoldWatch: 150 * t.Pick(5, "hold"), EnvProb: 120, AdvanceProb: 20}
+		pol.ForceFault = s.ReplaceUnderWrite(40)
 		w.Cfg["policy"] = fmt.Sprintf("adversarial hold=%d", pol.HoldWatch)
 		w.Invariants = append(w.Invariants, twoControllers)
 		w.Stages = []Stage{
